@@ -187,8 +187,12 @@ func driveSpelling(t *Tracer, r Rng, n int) {
 			}
 			return out
 		}
+		canonical, respelled := run(ids), run(alt)
+		if canonical[0] == "outcome:ok" && respelled[0] == "outcome:err" {
+			continue // a layer that refuses "007" or "+7" outright says nothing wrong about any voxel: not judged
+		}
 		emitLaw(t, "SpellingSame", map[string]any{"fn": fn.name, "ids": strings.Join(ids, " "), "respelled": strings.Join(alt, " ")},
-			run(ids), run(alt), "")
+			canonical, respelled, "")
 	}
 }
 
